@@ -1,4 +1,4 @@
 From Coq Require Extraction ExtrOcamlBasic.
-From NQ Require Import Remote.RemoteSmtp.
+From NQ Require Import Remote.RemoteSmtp Remote.SpawnSlot.
 Extraction Language OCaml.
-Extraction "extracted_C09.ml" smtp smtpcode rspawn_report.
+Extraction "extracted_C09.ml" smtp smtpcode rspawn_report SpawnSlot.run SpawnSlot.init SpawnSlot.honestb.
